@@ -334,7 +334,7 @@ func itFitValue(size uint32, pay uint64) hx.TV {
 
 func (e *itArr) violation(prop, what string) {
 	e.st.Violations = append(e.st.Violations, hx.Violation{
-		Property: prop, Stream: e.st.Stream, Seed: e.cfg.Seed, Program: e.prog, Step: e.step, What: what, Trace: e.w.Path,
+		Property: prop, Stream: e.st.Stream, Seed: e.cfg.Seed, Program: e.prog, Step: e.step, What: what, Trace: e.w.Path, Line: e.w.Lines,
 	})
 }
 func (e *itArr) emitEffects()             { itEmitEffects(e.w, e.ps, e.rec) }
@@ -386,7 +386,7 @@ func (e *itArr) checkReturned(prop string, got atree.Storable, want hx.TV) {
 
 func (e *itMap) violation(prop, what string) {
 	e.st.Violations = append(e.st.Violations, hx.Violation{
-		Property: prop, Stream: e.st.Stream, Seed: e.cfg.Seed, Program: e.prog, Step: e.step, What: what, Trace: e.w.Path,
+		Property: prop, Stream: e.st.Stream, Seed: e.cfg.Seed, Program: e.prog, Step: e.step, What: what, Trace: e.w.Path, Line: e.w.Lines,
 	})
 }
 func (e *itMap) emitEffects()                           { itEmitEffects(e.w, e.ps, e.rec) }
@@ -1467,7 +1467,7 @@ func iterNestedOracle(cfg *Config, st *hx.Stats, w *hx.W, rng *rand.Rand, p int)
 	ps := hx.NewStorage(ledger)
 	addr := hx.MkAddr(uint64(1 + rng.Intn(3)))
 	viol := func(what string) {
-		st.Violations = append(st.Violations, hx.Violation{Property: "C13", Stream: st.Stream, Seed: cfg.Seed, Program: p, What: what, Trace: w.Path})
+		st.Violations = append(st.Violations, hx.Violation{Property: "C13", Stream: st.Stream, Seed: cfg.Seed, Program: p, What: what, Trace: w.Path, Line: w.Lines})
 	}
 	nChildren := 5 + rng.Intn(60)
 	grow := 1 + rng.Intn(12) // appends per child during the iteration (children outgrow inlining)
